@@ -390,7 +390,14 @@ class file_and_cli_paths_equal_api:
                 return False
             d2, e2 = kp.loads(kern)
             again = kp.dumps(d2, spine_types=['**kern'], include=kp.BEKERN_CATEGORIES, encoding=kp.Encoding.eKern)
-            return again == got
+            if again != got:
+                return False
+            # an ekern file without a final newline goes through the converter like its text through the API
+            nf = os.path.join(sub, 'c.ekrn')
+            with open(nf, 'w', encoding='utf-8', newline='') as f:
+                f.write(got.rstrip('\n'))
+            kp.ekern_to_krn(nf, os.path.join(sub, 'c.krn'))
+            return open(os.path.join(sub, 'c.krn'), encoding='utf-8', newline='').read() == kp.get_kern_from_ekern(got.rstrip('\n'))
 
 
 # ---- C15: the classes the property itself names as tracked findings ----------------------------------------------------------------------
